@@ -322,7 +322,7 @@ pub fn run(ctx: &Ctx) -> i32 {
     }
     // long strings: a special character near every likely cut position of a longer string
     let mut longs: Vec<String> = vec![];
-    for len in [14usize, 15, 16, 17, 31, 32, 33, 63, 64, 65, 127, 128, 129, 255, 256, 257, 1000] {
+    for len in (4usize..=130).chain([255, 256, 257, 1000]) {
         for sp in ["", "\"", "\\", "~", "é"] {
             for pos in [0usize, len / 2, len.saturating_sub(3), len.saturating_sub(2), len - 1] {
                 let mut s: String = "a".repeat(pos);
